@@ -184,7 +184,7 @@ def parse_race_reports(text, repo):
     return reports
 
 
-def run_harness(ROOT, GOENV, scn, seed, n, flt=None, extra=None, timeout=1800, race_out=None, repo="/repo"):
+def run_harness(ROOT, GOENV, scn, seed, n, flt=None, extra=None, timeout=1800, race_out=None, repo="/repo", env_extra=None):
     """Run the harness for `n` cases, restarting after a crash.  Returns list of cases
     (dict); a crashed case gets obs.outcome = 'crash'.  With race_out (a list) the binary built
     with the race detector is used and its reports are appended to race_out."""
@@ -200,6 +200,7 @@ def run_harness(ROOT, GOENV, scn, seed, n, flt=None, extra=None, timeout=1800, r
         if extra:
             cmd += extra
         env = dict(GOENV, GOMEMLIMIT="4GiB")
+        env.update(env_extra or {})
         if race_out is not None:
             env["GORACE"] = "halt_on_error=0"
         p = subprocess.Popen(cmd, stdout=subprocess.PIPE, stderr=subprocess.PIPE, env=env)
@@ -348,7 +349,7 @@ def check(ROOT, REPO, LEAN, GOENV, pid, prop, tier, seed):
                     broken.append("tool:harness_race build: " + rout[-800:])
                     continue
             cases = run_harness(ROOT, GOENV, sc["scn"], seed, n * boost, sc.get("filter"), sc.get("extra"),
-                                race_out=race_reports, repo=REPO)
+                                race_out=race_reports, repo=REPO, env_extra=sc.get("env"))
             if race_reports:
                 seen_r = set()
                 for rp in race_reports:
@@ -362,7 +363,7 @@ def check(ROOT, REPO, LEAN, GOENV, pid, prop, tier, seed):
                                    "detail": "data race reported by the Go race detector between %s %s (%s) and %s %s (%s) while running scenario %s/%s"
                                              % (rp["sides"][0]["what"], rp["sides"][0]["fn"], rp["sides"][0]["at"],
                                                 rp["sides"][1]["what"], rp["sides"][1]["fn"], rp["sides"][1]["at"], sc["scn"], sc.get("filter")),
-                                   "case": {"scn": "race", "scenario": sc["scn"], "filter": sc.get("filter"), "seed": seed, "n": n * boost,
+                                   "case": {"scn": "race", "scenario": sc["scn"], "filter": sc.get("filter"), "seed": seed, "n": n * boost, "env": sc.get("env"),
                                             "report": rp["text"]},
                                    "drv": None})
             outs, drc, derr = run_driver(LEAN, cases)
@@ -496,7 +497,7 @@ def replay(ROOT, REPO, LEAN, GOENV, path):
         sh(["go", "build", "-race", "-tags", "verif", "-o", "harness_race", "."], cwd=os.path.join(ROOT, "harness"), env=GOENV, timeout=1200)
         reports = []
         run_harness(ROOT, GOENV, case["scenario"], case.get("seed", 1), case.get("n", 50), case.get("filter"), None,
-                    race_out=reports, repo=REPO)
+                    race_out=reports, repo=REPO, env_extra=case.get("env"))
         own = [r for r in reports if r["gengine_any"]]
         print("race detector reports involving gengine source: %d (of %d)" % (len(own), len(reports)))
         for r in own[:5]:
